@@ -471,18 +471,7 @@ func runC14(r *Run) {
 		}
 		r.R.Check(ok, P+".role.readFromCAS.before", "E2 Before: Decompress is only given bytes with len ≤ limit", core.FuncName(f), r.where(f), "decompressing an oversized file defeats the pre-decompression limit", "bounded before decompression", strings.Join(det, "; "))
 	}
-	// the decompressed-size limit is only as good as the decompressor: what it returns is the whole decompressed
-	// stream (a reader capped inside Decompress would hand back a silently truncated prefix that passes the limit)
-	if dz := r.fn(P, pkgCompression+"/gzip", "Algorithm.Decompress"); dz != nil {
-		r.requireSucc(P+".decompress.whole", "if this fails, a file that decompresses to more than limit × factor is cut to an acceptable prefix inside the decompressor and then accepted", dz, core.Ctx{}, "",
-			"cmp(<result> == io.ReadAll(compress/gzip.NewReader(_)))")
-		r.requireSucc(P+".decompress.errors", "if this fails, a stream that gzip reports as corrupt (bad header, bad checksum, truncated) is handed on as if it had been read completely", dz, core.Ctx{}, "",
-			"ok(compress/gzip.NewReader(_))", "ok(io.ReadAll(compress/gzip.NewReader(_)))")
-	}
-	if rd := r.fn(P, pkgCompression, "Registry.Decompress"); rd != nil {
-		r.requireSucc(P+".decompress.registry", "the registry must hand back what an algorithm that accepts the requested name produced, and only when that algorithm reported no error", rd, core.Ctx{}, "",
-			"true(Algorithm.Accept(?a, $1))", "ok(Algorithm.Decompress(?a, $2))", "cmp(<result> == Algorithm.Decompress(?a, $2))")
-	}
+	r.checkDecompress(P)
 	// E3: operators and roles of the file-size parameters
 	sinks, reads := r.protocolSinks()
 	r.R.SetCount("E3 protocol parameter reads followed", reads)
@@ -632,8 +621,7 @@ func runC14(r *Run) {
 	if f := r.fn(P, pkgProvider, "OperationProvider.getBatchFiles"); f != nil {
 		r.requireSucc(P+".counts.called", "the count validation must gate the batch files", f, core.Ctx{}, "", "ok(validateBatchFileCounts(<result>))", "cmp(<result>.CoreIndex == $1)")
 	}
-	r.requireSucc(P+".counts.anchor", "the number of operations returned must equal the anchor string's count", entry, core.Ctx{}, "",
-		"ok(ParseAnchorData($1.AnchorString))", "cmp(len(<result>) == ParseAnchorData($1.AnchorString).NumberOfOperations)")
+	r.checkCountsAnchor(P)
 	if f := r.fn(P, pkgProvider, "OperationProvider.assembleAnchoredOperations"); f != nil {
 		// delta zip guarded by equal length
 		ff := r.E.Facts(f, core.Ctx{})
@@ -1340,4 +1328,30 @@ func stripResolved(v ssa.Value) ssa.Value {
 		v = rv
 	}
 	return v
+}
+
+// checkDecompress: the reader's side of the compression round trip (shared by C14 and C13).
+func (r *Run) checkDecompress(P string) {
+	// the decompressed-size limit is only as good as the decompressor: what it returns is the whole decompressed
+	// stream (a reader capped inside Decompress would hand back a silently truncated prefix that passes the limit)
+	if dz := r.fn(P, pkgCompression+"/gzip", "Algorithm.Decompress"); dz != nil {
+		r.requireSucc(P+".decompress.whole", "if this fails, a file that decompresses to more than limit × factor is cut to an acceptable prefix inside the decompressor and then accepted", dz, core.Ctx{}, "",
+			"cmp(<result> == io.ReadAll(compress/gzip.NewReader(_)))")
+		r.requireSucc(P+".decompress.errors", "if this fails, a stream that gzip reports as corrupt (bad header, bad checksum, truncated) is handed on as if it had been read completely", dz, core.Ctx{}, "",
+			"ok(compress/gzip.NewReader(_))", "ok(io.ReadAll(compress/gzip.NewReader(_)))")
+	}
+	if rd := r.fn(P, pkgCompression, "Registry.Decompress"); rd != nil {
+		r.requireSucc(P+".decompress.registry", "the registry must hand back what an algorithm that accepts the requested name produced, and only when that algorithm reported no error", rd, core.Ctx{}, "",
+			"true(Algorithm.Accept(?a, $1))", "ok(Algorithm.Decompress(?a, $2))", "cmp(<result> == Algorithm.Decompress(?a, $2))")
+	}
+}
+
+// checkCountsAnchor: GetTxnOperations returns as many operations as the anchor string announces (shared by C14, C13, C15).
+func (r *Run) checkCountsAnchor(P string) {
+	entry := r.fn(P, pkgProvider, "OperationProvider.GetTxnOperations")
+	if entry == nil {
+		return
+	}
+	r.requireSucc(P+".counts.anchor", "the number of operations returned must equal the anchor string's count: a transaction whose files do not match its anchor string is malformed and must contribute nothing", entry, core.Ctx{}, "",
+		"ok(ParseAnchorData($1.AnchorString))", "cmp(len(<result>) == ParseAnchorData($1.AnchorString).NumberOfOperations)")
 }
